@@ -57,6 +57,7 @@ package utils
 //@   pure
 //@ extern strconv.FormatInt
 //@   pure
+//@   ensures digits_and_sign: len(result) >= 1 && (i < 0 ==> len(result) >= 2)
 
 //@ func TypedValueToString
 //@   props C12
@@ -148,3 +149,36 @@ package utils
 //@   loop 1 invariant keys_are_keys: forall(j, 0, len(ks), present(m, ks[j]))
 //@   loop 1 invariant keys_complete: allstr(k, present(m, k) ==> exists(j, 0, len(ks), ks[j] == k))
 //@   loop 1 invariant key_count: len(ks) == len(m)
+
+// ---------------------------------------------------------------------------
+// C20: no-panic sweep over the request-path helpers of this package (no annotation: any argument, any content)
+//@ sweep C20: ParsePath toPathElems toPathElem parseXPathKeys StripPathElemPrefix StripPathElemPrefixPath ToXPath CompletePath
+//@   NormalizedAbsPath relativeToAbsPath hasRelativePathElem CopyPath PathsEqual peEqual ToStrings
+//@   ParseDecimal64 ConvertSdcpbNumberToInt64 ConvertSdcpbNumberToUint64 convertStringToTv ConvertJsonValueToTv
+//@   ConvertString ConvertBoolean ConvertBinary ConvertDecimal64 ConvertEnumeration ConvertIdentityRef ConvertLeafRef ConvertUnion
+//@   ConvertInt8 ConvertInt16 ConvertInt32 ConvertInt64 ConvertUint8 ConvertUint16 ConvertUint32 ConvertUint64 convertInt convertUint
+//@   Convert ConvertInstanceIdentifier TypedValueToYANGType ConvertTypedValueToYANGType ConvertToTypedValue
+//@   GetJsonValue GetSchemaValue GetValue FromGNMITypedValue FromGNMIPath ToGNMIPath ToSchemaNotification
+//@   TypedValueToXML AddXMLOperation GetNamespaceFromGetSchema GetSchemaElemModuleName DefaultValueExists DefaultValueRetrieve
+//@   getChild getField getItem getLeafList isKey
+
+// thin contracts of library functions the swept code indexes with (assumed, listed in the evidence)
+//@ extern strings.Index
+//@   noeffect
+//@   ensures in_range: -1 <= result && (result >= 0 ==> result + len(substr) <= len(s))
+//@ extern strings.LastIndex
+//@   noeffect
+//@   ensures in_range: -1 <= result && (result >= 0 ==> result + len(substr) <= len(s))
+//@ extern strings.IndexByte
+//@   noeffect
+//@   ensures in_range: -1 <= result && result < len(s)
+//@ extern strings.SplitN
+//@   noeffect
+//@   ensures at_least_one: len(sep) > 0 && n != 0 ==> len(result) >= 1
+//@   ensures at_most_n: n > 0 ==> len(result) <= n
+//@ extern strings.Split
+//@   noeffect
+//@   ensures at_least_one: len(sep) > 0 ==> len(result) >= 1
+//@ extern strings.TrimSpace
+//@   noeffect
+//@   ensures not_longer: len(result) <= len(s)
